@@ -33,6 +33,8 @@ fn main() {
         "vamm" => vamm_unit::run(seed, count, &mut out, &mut st),
         "pricefeed" => pricefeed_unit::run(seed, count, &mut out, &mut st),
         "world" => world::run(seed, count, &mut out, &mut st),
+        "fault" => world::run_fault(seed, count, &mut out, &mut st),
+        "twin" => world::run_twin(seed, count, &mut out, &mut st),
         "replay" => {
             let input = std::fs::read_to_string(arg(&args, "--in").expect("--in FILE")).unwrap();
             if input.lines().any(|l| l.starts_with("CFG ")) {
@@ -49,7 +51,7 @@ fn main() {
             }
         }
         _ => {
-            eprintln!("usage: harness <integer|vamm|pricefeed|world|replay> --seed N --count N [--out F] [--stats F]");
+            eprintln!("usage: harness <integer|vamm|pricefeed|world|fault|twin|replay> --seed N --count N [--out F] [--stats F]");
             std::process::exit(2);
         }
     }
